@@ -582,7 +582,7 @@ fn run_route(c: &RouteCase) -> Outcome {
 }
 
 pub fn check(ctx: &Ctx) {
-    let l = ctx.tier.pick(8, 12);
+    let l = ctx.tier.pick(10, 12);
     let strings = common::all_strings(&ABC, l);
     ctx.run_space(
         "hasher_h2",
@@ -591,7 +591,7 @@ pub fn check(ctx: &Ctx) {
         strings.par_iter().map(|s| TextCase { s: s.clone() }),
         run_hasher_h2,
     );
-    let lp = ctx.tier.pick(6, 10);
+    let lp = ctx.tier.pick(8, 10);
     let strings_p = common::all_strings(&ABC, lp);
     ctx.run_space(
         "hasher_public",
@@ -600,7 +600,7 @@ pub fn check(ctx: &Ctx) {
         strings_p.par_iter().map(|s| TextCase { s: s.clone() }),
         run_hasher_public,
     );
-    let lr = ctx.tier.pick(7, 11);
+    let lr = ctx.tier.pick(9, 11);
     let strings_r = common::all_strings(&ABC, lr);
     ctx.run_space(
         "normalized_reader",
@@ -618,7 +618,7 @@ pub fn check(ctx: &Ctx) {
         strings.par_iter().map(|s| TextCase { s: s.clone() }),
         run_in_memory,
     );
-    let lq = ctx.tier.pick(4, 6);
+    let lq = ctx.tier.pick(5, 6);
     let sq = common::all_strings(&ABC, lq);
     let pairs: Vec<PairCase> = sq
         .iter()
@@ -636,7 +636,7 @@ pub fn check(ctx: &Ctx) {
         pairs.into_par_iter(),
         run_pair,
     );
-    let rstrings = common::all_strings(&ABC, ctx.tier.pick(4, 6));
+    let rstrings = common::all_strings(&ABC, ctx.tier.pick(5, 6));
     let mut rc = Vec::new();
     for s in &rstrings {
         for enc in 0..3u8 {
